@@ -180,3 +180,19 @@ mod tests {
         assert_eq!(accum.accept(b'B'), Some(Input::Control(ControlInput::Down)));
     }
 }
+
+#[cfg(feature = "verif-hooks")]
+impl InputGenerator {
+    /// Verification hook: (csi started, last byte, utf8 buffer, utf8 partial, utf8 expected)
+    #[doc(hidden)]
+    pub fn __verif_state(&self) -> (bool, u8, [u8; 4], u8, u8) {
+        let (buffer, partial, expected) = self.utf8.__verif_state();
+        (
+            self.flags.contains(Flags::CSI_STARTED),
+            self.last_byte,
+            buffer,
+            partial,
+            expected,
+        )
+    }
+}
